@@ -17,7 +17,10 @@ tasks = queue.Queue()
 for m in sorted(glob.glob(os.path.join(V, "seeded", "*", "meta.json"))):
     d = os.path.basename(os.path.dirname(m))
     if only and not only.search(d): continue
-    tasks.put((d, json.load(open(m)).get("property") or d[:3]))
+    mj = json.load(open(m))
+    if mj.get("obsolete"):
+        continue  # the code the change modifies no longer exists (see meta.json)
+    tasks.put((d, mj.get("property") or d[:3]))
 results, lock = {}, threading.Lock()
 def sh(cmd, **kw): return subprocess.run(cmd, shell=True, text=True, stdout=subprocess.PIPE, stderr=subprocess.STDOUT, **kw)
 def worker(k):
